@@ -4,6 +4,31 @@ import json, os, sys
 root = os.path.dirname(os.path.dirname(os.path.abspath(__file__)))
 props = [json.loads(l) for l in open(os.path.join(root, 'properties.jsonl'))]
 claims = json.load(open(os.path.join(root, 'tools', 'claims.json')))
+import glob, re
+def harness_index(pid):
+    """name [directive bounds]: first sentence of the doc comment, for every harness of the property (from the files)"""
+    out = []
+    for f in sorted(glob.glob(os.path.join(root, 'harness', pid, '**', 'zz_verif_*.go'), recursive=True)):
+        lines = open(f).read().split('\n')
+        for i, l in enumerate(lines):
+            m = re.match(r'//verif:harness (.*)', l)
+            if not m:
+                continue
+            kv = dict(x.split('=', 1) for x in m.group(1).split() if '=' in x)
+            if kv.get('prop') != pid:
+                continue
+            j = i - 1
+            doc = []
+            while j >= 0 and lines[j].startswith('//'):
+                t = lines[j][2:].strip()
+                if t and not t.startswith('verif:'):
+                    doc.insert(0, t)
+                j -= 1
+            text = ' '.join(doc)
+            first = re.split(r'(?<=[.;])\s', text)[0] if text else ''
+            b = ' '.join('%s=%s' % (k, v) for k, v in kv.items() if k not in ('prop', 'name'))
+            out.append('%s [%s] %s' % (kv.get('name'), b, first[:220]))
+    return out
 checks = []
 na = []
 for p in props:
@@ -18,7 +43,7 @@ for p in props:
             "replay_cmd_template": "cd /repo && VERIF_REPLAY={path} go test (see DESIGN.md 2.8; ./check re-runs and replays automatically)",
             "engine": "symgo",
             "level_claimed": {"category": "model_checking", "text": c["text"], "design_ref": c.get("design_ref", "DESIGN.md section 4 " + pid)},
-            "level_note": c["note"],
+            "level_note": c["note"] + " || harnesses (generated from the harness files): " + " | ".join(harness_index(pid)),
             "technique": c.get("technique", "bounded symbolic execution of the real Go SSA (go/ssa) with SMT (z3) deciding every branch and assertion; counterexamples replayed natively"),
         })
     else:
